@@ -28,10 +28,29 @@ def seeded():
     return "\n".join(rows)
 
 
+def asbuilt():
+    rows = ["| property | theorems (all kernel-checked, axioms within propext / Classical.choice / Quot.sound) | PENDING statements (defs, not theorems) | quick tier: cases / distinct non-trivial / wall |", "|---|---|---|---|"]
+    for i in range(1, 21):
+        pid = "C%02d" % i
+        ev = os.path.join(VERIF, "evidence", pid + ".json")
+        props = os.path.join(VERIF, "lean", "ALV", "Props", pid + ".lean")
+        n, cases, dn, wall = "-", "-", "-", "-"
+        if os.path.exists(ev):
+            e = json.load(open(ev))
+            c = e["coverage"]
+            n = "%s / %s" % (c.get("discharged"), c.get("obligations"))
+            cases, dn, wall = c.get("evaluations"), c.get("distinct_nontrivial"), "%.0f s" % e.get("wall_s", 0)
+        pend = []
+        if os.path.exists(props):
+            pend = re.findall(r"^def (\w*PENDING\w*|close_returns_no_pause|close_returns_fixed|steps_bounded|gammatone_sampled_first_unit_gain_all_eta)\b", open(props).read(), re.M)
+        rows.append("| %s | %s | %s | %s / %s / %s |" % (pid, n, ", ".join("`%s`" % x for x in pend) or "none", cases, dn, wall))
+    return "\n".join(rows)
+
+
 def main():
     p = os.path.join(VERIF, "DESIGN.md")
     s = open(p).read()
-    for name, fn in (("findings", findings), ("seeded", seeded)):
+    for name, fn in (("findings", findings), ("seeded", seeded), ("asbuilt", asbuilt)):
         pat = re.compile(r"(<!-- BEGIN %s -->\n).*?(<!-- END %s -->)" % (name, name), re.S)
         if pat.search(s):
             s = pat.sub(lambda m: m.group(1) + fn() + "\n" + m.group(2), s)
